@@ -115,12 +115,18 @@ def sym_for(ex, name, sort, origin=None):
     raise Unsupported(f"contract sort {sort}")
 
 
-def make_obj(ex, cls_key, name="self"):
+def make_obj(ex, cls_key, name="self", assume_invariant=True):
     cc = ex.w.classes.get(cls_key, {})
     attrs = {}
     for a, s in cc.get("state", {}).items():
         attrs[a] = sym_for(ex, f"{name}.{a}", s, origin=f"{name}.{a}")
-    return Obj(cls_key, attrs, fresh="no")
+    o = Obj(cls_key, attrs, fresh="no")
+    if assume_invariant:
+        # class invariant: holds of every instance met from outside (the class's own methods are
+        # the only writers of its state and each re-establishes it as a postcondition)
+        for inv in cc.get("invariant", []):
+            ex.assume(ex.to_bool(eval_spec_expr(ex, inv, {"self": o})))
+    return o
 
 
 def eval_spec_expr(ex, text, env):
@@ -221,6 +227,19 @@ def apply_contract(ex, key, self_obj, args, kw, line):
     set_fresh(result, fr)
     # state effects on self
     if self_obj is not None:
+        # fields of self named in the callee's frame have an unknown new value, constrained only
+        # by the callee's postconditions (unless given exactly by an effect clause)
+        from .loops import havoc_like
+        for m_ in c.get("modifies", []):
+            if m_.startswith("self.") and isinstance(self_obj, Obj):
+                a_ = m_[5:]
+                if a_ in self_obj.attrs and a_ not in c.get("self_effects", {}) \
+                        and a_ not in c.get("self_attr_is", {}) and not c.get("no_havoc"):
+                    old_v = self_obj.attrs[a_]
+                    nv = havoc_like(ex, old_v, f"{a_}'")
+                    if isinstance(nv, Z):
+                        nv.origin = old_v.origin if isinstance(old_v, Z) else nv.origin
+                    self_obj.attrs[a_] = nv
         for attr, expr in c.get("self_effects", {}).items():
             self_obj.attrs[attr] = eval_spec_expr(ex, expr, env)
         for attr, pname in c.get("self_attr_is", {}).items():
@@ -572,7 +591,8 @@ def run_one_path(ex, c, fnode, is_method, res):
     psorts = c.get("params", {})
     self_obj = None
     if is_method:
-        self_obj = make_obj(ex, c["self"], "self")
+        self_obj = make_obj(ex, c["self"], "self",
+                            assume_invariant=not c.get("no_invariant_on_entry"))
         env[params[0]] = self_obj
         params = params[1:]
     for p in params:
